@@ -4,6 +4,7 @@ import (
 	"fmt"
 	"go/token"
 	"go/types"
+	"strings"
 
 	"golang.org/x/tools/go/ssa"
 )
@@ -73,6 +74,11 @@ func definedOutside(v ssa.Value, l *loopInfo) bool {
 		return definedOutside(x.X, l)
 	case *ssa.ChangeType:
 		return definedOutside(x.X, l)
+	case *ssa.Call:
+		// len/cap of a loop-invariant value, re-evaluated in the loop
+		if bi, ok := x.Call.Value.(*ssa.Builtin); ok && (bi.Name() == "len" || bi.Name() == "cap") && len(x.Call.Args) == 1 {
+			return definedOutside(x.Call.Args[0], l)
+		}
 	case *ssa.UnOp:
 		if x.Op == token.MUL && l.Body[x.Block()] {
 			// a field re-loaded in the loop is invariant if the loop neither stores that field nor calls module code
@@ -88,7 +94,7 @@ func definedOutside(v ssa.Value, l *loopInfo) bool {
 							return false
 						}
 					case ssa.CallInstruction:
-						if _, isB := y.Common().Value.(*ssa.Builtin); !isB {
+						if !callCannotStore(y, fv, 0, map[*ssa.Function]bool{}) {
 							return false
 						}
 					}
@@ -340,3 +346,58 @@ func loadsLatched(v ssa.Value, latched map[*types.Var]bool, depth int) bool {
 	}
 	return false
 }
+
+// callCannotStore: the call cannot modify field fv: builtins; standard-library callees receiving only scalars, strings or
+// byte slices (no way back into module state); module callees whose static call closure contains no store to fv and no
+// dynamic call.
+func callCannotStore(call ssa.CallInstruction, fv *types.Var, depth int, seen map[*ssa.Function]bool) bool {
+	cc := call.Common()
+	if _, isB := cc.Value.(*ssa.Builtin); isB {
+		return true
+	}
+	cal := cc.StaticCallee()
+	if cal == nil || depth > 6 {
+		return false
+	}
+	if seen[cal] {
+		return true
+	}
+	seen[cal] = true
+	inModule := cal.Pkg != nil && strings.HasPrefix(cal.Pkg.Pkg.Path(), modPath)
+	if o := cal.Object(); !inModule && o != nil && o.Pkg() != nil {
+		inModule = strings.HasPrefix(o.Pkg().Path(), modPath)
+	}
+	if !inModule {
+		for _, a := range cc.Args {
+			switch t := a.Type().Underlying().(type) {
+			case *types.Basic:
+			case *types.Slice:
+				if b, ok := t.Elem().Underlying().(*types.Basic); !ok || b.Kind() != types.Uint8 {
+					return false
+				}
+			default:
+				return false
+			}
+		}
+		return true
+	}
+	if len(cal.Blocks) == 0 {
+		return false
+	}
+	for _, b := range cal.Blocks {
+		for _, in := range b.Instrs {
+			switch y := in.(type) {
+			case *ssa.Store:
+				if fieldVar(y.Addr) == fv {
+					return false
+				}
+			case ssa.CallInstruction:
+				if !callCannotStore(y, fv, depth+1, seen) {
+					return false
+				}
+			}
+		}
+	}
+	return true
+}
+
